@@ -624,4 +624,4 @@ def check_shared_forwarding(repo, res, fns):
                     res.inst("F-FWD", f"{f.qualname}:{c.lineno} {g.name}(... {p_}=...) receives the caller's `{p_}`", ok)
                     if not ok:
                         res.add(mk_finding(PROP, "F-FWD", f, c, f"{f.qualname}: `{unparse(c, 50)}` does not hand its own `{p_}` on to {g.name}, which then works with its default; what this path reads or writes differs from the other paths of the same function (e.g. the members of a collection come back with uncast IDs)", role=f"{g.name}:{p_}"))
-    res.floor("format parameters shared between a reader/writer and the function it calls", n, 8)
+    res.floor("format parameters shared between a reader/writer and the function it calls", n, 4)
